@@ -241,12 +241,11 @@ pub trait ReceiveFrame<T> {
 impl<F: Unpin> Future for Receiving<F> {
     type Output = Result<Option<F>, ResetError>;
 
-    fn poll(self: Pin<&mut Self>, _cx: &mut Context<'_>) -> Poll<Self::Output> {
+    fn poll(self: Pin<&mut Self>, cx: &mut Context<'_>) -> Poll<Self::Output> {
         let state = self.get_mut();
         match std::mem::take(state) {
-            Self::Pending => Poll::Pending,
-            Self::Waiting(waker) => {
-                *state = Self::Waiting(waker);
+            Self::Pending | Self::Waiting(_) => {
+                *state = Self::Waiting(cx.waker().clone());
                 Poll::Pending
             }
             Self::Rcvd(frame) => {
